@@ -54,6 +54,10 @@ def main(ctx):
     # re-opened namespaces (tiny name pool) holding templates and typedefs of them, nested instantiation arguments
     res += fw.run_cases(case, [(ctx.seed + 17, dict(p_template=0.8, ns_pool=["a", "b"], n_typedefs=4, max_depth=2, max_decls=4,
                                                     extra_kinds=['ns', 'cls']))] * ctx.scale(120, 2500))
+    # lower-case type names whose first letter occurs again (state, dd, tt, stats, level): the naming rule capitalises EVERY
+    # occurrence of the first letter of the flattened argument name (`name.replace(name[0], name[0].capitalize())`)
+    res += fw.run_cases(case, [(ctx.seed + 29, dict(p_template=0.8, class_pool=["state", "dd", "tt", "stats", "level", "aba", "vectorvalues"], p_suffix=0.0,
+                                                    max_decls=4, extra_kinds=['cls', 'func']))] * ctx.scale(80, 1500))
     for r in res:
         if "crash" in r:
             raise RuntimeError(r["crash"])
